@@ -11,12 +11,26 @@ def hook(w, job, part):
         w.op_open(ti, True); se = [x for x in w.m.sess.values() if x.alive and x.ti == ti][0]; w.op_login(se, 1, True)
         for _ in range(w.rnd.randrange(4, 30)): w.op_create(se)
     w.run(job['steps'], monitors=(), stop_on={'C19', 'MODEL'})
+def bulk_hook(w, job, part):
+    """large populations (hundreds of objects) with batch sizes from 1 to beyond the population"""
+    if job['backend'] == 'db': w.weights.pop('copy', None)
+    for ti in range(2):
+        w.op_open(ti, True); se = [x for x in w.m.sess.values() if x.alive and x.ti == ti][0]; w.op_login(se, 1, True)
+        for _ in range(job['steps']): w.op_create(se)
+    for _ in range(40):
+        se = w.pick_sess(); w.op_find(se)
+        if w.rnd.random() < 0.3: w.op_logout(se)
+        elif w.rnd.random() < 0.3: w.op_login(se, 1, True)
+        if w.rnd.random() < 0.3: w.op_destroy(se)
+        if any(f.prop in ('C19', 'MODEL') for f in w.findings): return
+
 def run(ctx):
     ctx.rule = ('random populations (8-60 objects of 3 classes on two tokens, token/session x private/public, many shared attribute values) x templates of 0..3 entries '
                 '(values of existing objects incl. private ones, absent attributes, wrong-sized and empty values) x five session states x random batch-size sequences (0,1,2,3,5,40); '
                 'the multiset of returned handles, mapped back through the unique tag, must equal model.visible(session) ∩ matches(template); '
                 'one evaluation = one step/search; distinct = (session state, template size, answer class empty/some/all, batch sizes used)')
     run_walks(ctx, {'C19'}, ctx.q(480, 4000), ctx.q(90, 120), weights=W, backends=ctx.q(('file', 'db'), ('file', 'db')), monitors=(), hook=hook)
+    run_walks(ctx, {'C19'}, ctx.q(4, 48), ctx.q(100, 400), weights=W, backends=ctx.q(('file',), ('file', 'db')), monitors=(), hook=bulk_hook)
     ctx.extra['searches'] = ctx.extra.get('walk_finds', 0)
     ctx.assumptions += ['CK_BBOOL template values are 0/1; attributes restricted to boolean / ulong / byte-string kinds as the quantifier says', 'defaults of attributes not given at creation are read back once through C_GetAttributeValue']
 if __name__ == '__main__': main('C19', run, min_evaluations=2000, min_distinct=40)
